@@ -2,6 +2,7 @@ SPECIFICATION Spec
 CONSTANTS
   Dev = {"hide-bundles"}
   MaxCalls = 3
+  Classes = FALSE
   MaxOps = 5
 INVARIANTS NoUseLeft
 VIEW View
